@@ -37,7 +37,10 @@ def same(a, b, tol):
 
 
 def check_clusters(m, cfg, rows, Q, ctx, wit):
+    import copy as _copy
     imp = m._imp
+    randomised = cfg["lp"]["kind"] in ("ts", "sm", "pop", "rnd") or cfg["lp"].get("epsilon", 0) > 0
+    row_seeds = _copy.deepcopy(m._rng).randint(np.iinfo(np.int32).max, size=len(Q)) if randomised else [None] * len(Q)
     labels = np.asarray(imp.kmeans.labels_)
     if len(labels) != len(rows["d"]):
         ctx.violation("clusters: k-means labels cover %d rows, the recorded history has %d" % (len(labels), len(rows["d"])), wit,
@@ -50,7 +53,9 @@ def check_clusters(m, cfg, rows, Q, ctx, wit):
     for j, q in enumerate(Q):
         ctx.ev()
         idx = [i for i in range(len(labels)) if labels[i] == cells[j]]
-        ref = MAB(list(m.arms), gen.make_lp(cfg["lp"]))
+        # randomised policies: the reference is seeded with the row's own seed (drawn before the rows are partitioned)
+        ref = MAB(list(m.arms), gen.make_lp(cfg["lp"])) if row_seeds[j] is None else \
+            MAB(list(m.arms), gen.make_lp(cfg["lp"]), seed=int(row_seeds[j]))
         d = np.asarray([rows["d"][i] for i in idx])
         r = np.asarray([rows["r"][i] for i in idx], dtype=float)
         if not idx:
@@ -140,12 +145,13 @@ def run_case(rs, ctx):
         npd = {"kind": "tree", "params": gen.pick(rs, [{}, {"max_depth": 1}, {"max_depth": 2}, {"max_depth": 3},
                                                        {"min_samples_leaf": 2}, {"min_samples_leaf": 4}, {"max_depth": 2, "min_samples_leaf": 3}])}
     else:
-        lk = ["eg", "ucb", "linucb", "lingreedy"][(ctx.index // 2) % 4]
+        lk = ["eg", "ucb", "linucb", "lingreedy", "ts", "sm", "rnd", "eg_explore"][(ctx.index // 2) % 8]
         npd = {"kind": "clusters", "n_clusters": int(rs.integers(2, 5)), "minibatch": bool(rs.integers(3) == 0)}
         if rs.integers(4) == 0:
             # many clusters for few rows: some cluster ids receive no stored row at all
             npd = {"kind": "clusters", "n_clusters": int(rs.integers(5, 9)), "minibatch": bool(rs.integers(4) > 0)}
-    cfg = {"arms": list(gen.LABELS[labels][:n_arms]), "labels": labels, "lp": gen.gen_lp(rs, lk, deterministic=True), "np": npd,
+    lpd = gen.gen_lp(rs, lk, deterministic=True) if lk != "eg_explore" else {"kind": "eg", "epsilon": float(gen.pick(rs, [0.3, 1.0]))}
+    cfg = {"arms": list(gen.LABELS[labels][:n_arms]), "labels": labels, "lp": lpd, "np": npd,
            "seed": int(rs.integers(10 ** 6)), "n_jobs": 1, "backend": None}
     nf = int(rs.integers(1, 4))
     sh = gen.Shadow(cfg, nf)
